@@ -35,6 +35,15 @@ Theorem C13_done_latches_off : forall fuel m now,
   auto_on m' = false /\ engaged m' = false.
 Proof. exact (auto_done_latches_off sh body). Qed.
 
+(* ... and this needs no usage contract at all: whatever the state functions do after
+   done() (more transitions, next_state_now(), done() again), for every user code *)
+Theorem C13_done_latches_off_for_any_user_code : forall fuel m now,
+  sh_auto sh = true -> auto_on m = true ->
+  In EvDone (snd (step sh body fuel m (AOnIteration now))) ->
+  let m' := fst (step sh body fuel m (AOnIteration now)) in
+  auto_on m' = false /\ engaged m' = false.
+Proof. exact (auto_done_latches_off_any sh body). Qed.
+
 (* the expiry of the last timed state never restarts an autonomous machine *)
 Theorem C13_last_state_expiry_finishes : forall nested m now s dc,
   sh_auto sh = true ->
@@ -97,6 +106,7 @@ Qed.
 
 Print Assumptions C13_as_if_engaged.
 Print Assumptions C13_done_latches_off.
+Print Assumptions C13_done_latches_off_for_any_user_code.
 Print Assumptions C13_last_state_expiry_finishes.
 Print Assumptions C13_nothing_until_enable.
 Print Assumptions C13_off_is_noop.
